@@ -353,7 +353,8 @@ fn run_case_inner(ctx: &Ctx, case: &Case, counting: bool) -> PResult {
 						fail!("valid-block-rejected", "op {}: model-valid block (h={}, {} inputs, parent node {}) rejected: {}", i, built.block.header.height, built.n_spends, built.parent, err_name(e));
 					}
 					(Err(why), Ok(_)) => {
-						fail!(format!("invalid-block-accepted:{:?}", built.neg), "op {}: block invalid in the model ({:?}) was accepted", i, why);
+						let kind = if built.neg == Neg::None { format!("{:?}", why).split('(').next().unwrap_or("").to_string() } else { format!("{:?}", built.neg) };
+						fail!(format!("invalid-block-accepted:{}", kind), "op {}: block invalid in the model ({:?}) was accepted", i, why);
 					}
 					(Err(why), Err(_)) => {
 						st.rejected += 1;
